@@ -148,6 +148,7 @@ AKINDS = ("scalar", "nested", "typed", "eager_seq", "eager_map", "lazy_map")
 def _spec(ctx, n, rich=True):
     """symbolic description of the section: per element (cls, form, kwargs in order)"""
     fail = ctx.choice("fail_pos", n + 1)  # n = nobody fails
+    P.FAIL_WITH[0] = [P.Boom, TypeError, KeyError][ctx.choice("fail_exception", 3)] if fail < n else P.Boom
     spec = []
     for i in range(n):
         form = FORMS[ctx.choice("form%d" % i, len(FORMS))]
